@@ -124,6 +124,16 @@ class Ctx:
         else:
             v["count"] += 1
 
+    def tmpdir(self, name="w"):
+        """scratch directory under /verif/.run, removed at process exit"""
+        import atexit
+        import shutil
+        import tempfile
+        os.makedirs(RUN_DIR, exist_ok=True)
+        d = tempfile.mkdtemp(prefix=f"{self.prop}-{name}-{self.shard}-", dir=RUN_DIR)
+        atexit.register(shutil.rmtree, d, True)
+        return d
+
     def inconclusive(self, reason):
         self.inconclusive_reasons.append(reason)
 
@@ -276,7 +286,7 @@ def finish(mod, ctx, wall):
     if ctx.evaluations == 0:
         ctx.inconclusive("no case executed")
     # replay files
-    rdir = os.path.join(HERE, "replays", prop)
+    rdir = os.path.join(os.environ.get("VERIF_REPLAY_DIR") or os.path.join(HERE, "replays"), prop)
     lines = []
     for v in new:
         os.makedirs(rdir, exist_ok=True)
@@ -315,11 +325,12 @@ def finish(mod, ctx, wall):
         "coverage": cov, "assumptions": list(getattr(mod, "ASSUMPTIONS", [])),
         "wall_s": round(wall, 2), "violations": len(new),
     }
-    os.makedirs(os.path.join(HERE, "evidence"), exist_ok=True)
-    tmp = os.path.join(HERE, "evidence", f".{prop}.{os.getpid()}.tmp")
+    evdir = os.environ.get("VERIF_EVIDENCE_DIR") or os.path.join(HERE, "evidence")
+    os.makedirs(evdir, exist_ok=True)
+    tmp = os.path.join(evdir, f".{prop}.{os.getpid()}.tmp")
     with open(tmp, "w") as f:
         json.dump(ev, f, indent=1, sort_keys=True)
-    os.replace(tmp, os.path.join(HERE, "evidence", f"{prop}.json"))
+    os.replace(tmp, os.path.join(evdir, f"{prop}.json"))
     for ln in lines:
         print(ln)
     mons = ", ".join(f"{k}={v}" for k, v in sorted(ctx.monitors.items()))
